@@ -465,12 +465,19 @@ def run_check(pid, tier, fn, level="model_checking"):
         return 2
 
 
+_NONFINITE = re.compile(r'(?<=[\[,:])\s*(-?)(inf|nan)(?=[,\]}])', re.I)
+
+
 def read_ndjson(path):
+    """NDJSON written by harnesses; C's printf spells non-finite doubles inf / -inf / nan / -nan, which JSON does not know:
+    they are read as float('inf') / float('nan') (callers must test for finiteness where a number is expected)."""
     out = []
     with open(path) as f:
         for line in f:
             line = line.strip()
             if line:
+                if "inf" in line or "nan" in line:
+                    line = _NONFINITE.sub(lambda m: (m.group(1) + "Infinity") if m.group(2).lower() == "inf" else "NaN", line)
                 out.append(json.loads(line))
     return out
 
